@@ -27,6 +27,9 @@ def seeded_table():
         if not os.path.exists(mp):
             continue
         m = json.load(open(mp))
+        if m.get("retired"):
+            rows.append(f"| {os.path.basename(d)} | {m['property']} | `{m.get('site', '')}` | {m.get('needs', '').replace('|', '/')[:200]} | *retired*: {m['retired'][:260]} |")
+            continue
         n += 1
         cb = m.get("caught_by", [])
         caught += bool(cb)
@@ -35,10 +38,32 @@ def seeded_table():
     return "\n".join(rows) + f"\n\n{n} seeded changes, {caught} caught by at least one check, {own} caught by the check of the property they were written against.\n"
 
 
+def monitors_table():
+    """Monitors as built, from the committed evidence files (evaluations of the last run in /verif against /repo)."""
+    def find(o, k):
+        if isinstance(o, dict):
+            for a, b in o.items():
+                if a == k:
+                    return b
+                r = find(b, k)
+                if r is not None:
+                    return r
+        return None
+    rows = ["| check | tier / seed | oracle evaluations | monitors (evaluations) | environment pass |", "|---|---|---|---|---|"]
+    for f in sorted(glob.glob(os.path.join(HERE, "evidence", "C*.json"))):
+        d = json.load(open(f))
+        m = find(d, "monitors") or {}
+        ev = find(d, "evaluations")
+        env = find(d, "environment_pass") or {}
+        mons = ", ".join(f"{k} ({v.get('evaluations', 0)})" for k, v in sorted(m.items()))
+        rows.append(f"| {d.get('property_id')} | {d.get('tier')} / {d.get('seed')} | {ev} | {mons} | {env.get('evaluations', '-')} evaluations |")
+    return "\n".join(rows) + "\n"
+
+
 def main():
     p = os.path.join(HERE, "DESIGN.md")
     s = open(p).read()
-    for name, fn in (("fixes", fixes_table), ("seeded", seeded_table)):
+    for name, fn in (("fixes", fixes_table), ("seeded", seeded_table), ("monitors", monitors_table)):
         a, b = f"<!-- BEGIN:{name} -->", f"<!-- END:{name} -->"
         if a in s and b in s:
             s = s[:s.index(a) + len(a)] + "\n" + fn() + s[s.index(b):]
